@@ -23,8 +23,10 @@ LEVEL = "exploration"
 SWEEP_LO, SWEEP_HI = 0, 64008
 
 RULE = (
-    "part (a) only (hand-written IntEnum classes with the real ProtocolEnumMeta; generated enums "
-    "are not covered by this module yet). A case is (enum declaration, sequence of 1..24 "
+    "part (a): hand-written IntEnum classes with the real ProtocolEnumMeta; part (b): the enums of "
+    "Hypothesis-generated protocol packages (every underlying type, names incl. None -> None_), each "
+    "driven with 1..12 constructions mixing declared ordinals, ordinals +-1/+253, EO boundaries, "
+    "negatives, huge values and bools through the same per-enum oracle. Part (a): a case is (enum declaration, sequence of 1..24 "
     "constructions E(n)); every clause is checked after every step. Declaration: 1..8 members, "
     "distinct PascalCase names from a pool of 26 (incl. None_), distinct ordinals from the EO "
     "boundaries (0,1,252..255,64008,64009,16194276,16194277,4097152080,4097152081), 0..12, the "
@@ -454,9 +456,67 @@ def run_task(task):
                                     "results": [repr(E(v)) for v in values[:8]]})
 
             hyp.campaign(seq_cases(), oracle, task["n"], task["seed"], res)
+        elif kind == "generated":
+            from vlib import genpkg
+            try:
+                hyp.campaign(generated_cases(), lambda case: check_generated(case, res), task["n"],
+                             task["seed"], res, shrink_budget=60)
+            finally:
+                genpkg.cleanup_tmpbase()
     except Violation as v:
         res.violation(v)
     return res
+
+
+# ----------------------------------------------------------------------------------------
+# part (b): enums of generated packages (every underlying type), same per-enum oracle
+
+def check_generated(case, res=None):
+    from vlib import gencase, spec
+    tree = case["tree"]
+    with gencase.Session(tree) as s:
+        if res is not None:
+            res.evaluations += 1
+        if not s.usable:
+            if res is not None:
+                res.labels["gen.generator_or_import_failed(C18)"] += 1
+            return
+        for item in case["enums"]:
+            decl, _dir = s.an.types[item["enum"]]
+            E = s.pkg.enum(item["enum"])
+            declared = {("None_" if v["name"] == "None" else v["name"]): v["ord"] for v in decl["values"]}
+            cj = {"kind": "generated", "tree": tree, "enums": [item], "xml": gencase.xml_of(tree)}
+            stats = check_enum(E, declared, item["values"], cj)
+            if res is not None:
+                res.labels["gen.enums"] += 1
+                res.labels["gen.type=" + decl["type"]] += 1
+                res.extra["constructions"] = res.extra.get("constructions", 0) + len(item["values"])
+                if len(declared) >= 2 and stats["declared"] > 0 and stats["undeclared"] > 0:
+                    res.labels["gen.nontrivial"] += 1
+                    res.nontrivial(["generated", decl, item["values"]])
+                    if res.labels["gen.nontrivial"] <= 1:
+                        res.sample({"generated_enum": decl["name"], "type": decl["type"], "declared": declared,
+                                    "values": item["values"][:8], "results": [repr(E(v)) for v in item["values"][:8]]},
+                                   limit=6)
+
+
+@st.composite
+def generated_cases(draw):
+    from vlib import spec, specgen
+    tree = dict(draw(specgen.trees(max_decls=6, max_packets=1)))
+    tree.pop("_excluded", None)
+    enums = []
+    for d in spec.DIRS:
+        for decl in tree["files"].get(d, []):
+            if decl["kind"] != "enum":
+                continue
+            ords = [v["ord"] for v in decl["values"]]
+            other = st.one_of(st.sampled_from(BOUNDS), st.integers(0, 64008), st.integers(-5, 300),
+                              st.sampled_from([o + dlt for o in ords for dlt in (1, -1, 253)]),
+                              st.booleans())
+            vals = draw(st.lists(st.one_of(st.sampled_from(ords), other), min_size=1, max_size=12))
+            enums.append({"enum": decl["name"], "values": vals})
+    return {"tree": tree, "enums": enums}
 
 
 def plan(tier, seed):
@@ -464,8 +524,10 @@ def plan(tier, seed):
     hyps = [{"kind": "hyp", "n": per_hyp, "seed": seed * 1000 + w} for w in range(16)]
     fixed = [{"kind": "sweep_fixed", "index": i} for i in range(len(FIXED_SWEEPS))]
     drawn = [{"kind": "sweep_drawn", "n": per_sweep, "seed": seed * 1000 + 100 + w} for w in range(8)]
-    # the first three tasks provide the samples of the evidence file; the long tasks go first
-    return hyps[:1] + fixed[:1] + drawn[:1] + hyps[1:] + fixed[1:] + drawn[1:]
+    gen_total = 640 if tier == "quick" else 8000
+    gen = [{"kind": "generated", "n": gen_total // 16, "seed": seed * 1000 + 200 + w} for w in range(16)]
+    # the first tasks provide the samples of the evidence file; the long tasks go first
+    return hyps[:1] + fixed[:1] + drawn[:1] + gen[:1] + hyps[1:] + fixed[1:] + drawn[1:] + gen[1:]
 
 
 def finalize(merged, tier):
@@ -486,6 +548,12 @@ def finalize(merged, tier):
 
 
 def replay(case):
+    if case.get("kind") == "generated":
+        from vlib import genpkg
+        try:
+            return check_generated(case, None)
+        finally:
+            genpkg.cleanup_tmpbase()
     c = loader.core()
     try:
         check_declaration(c.enum_meta.ProtocolEnumMeta, case)
